@@ -164,8 +164,10 @@ static void random_op(op_t *op)
 		"{\"a\":9223372036854775807,\"b\":-9223372036854775808}", "{", "", "nul", "5", "\"s\"", "{\"x\":1,\"x\":2}", "{\"a\":{\"a\":{\"a\":{}}}}",
 		"{\"exp\":1,\"alg\":\"none\"}", "[[[[[[]]]]]]", "{\"a\":1} x", " {\"c\":2} ",
 		"{\"r\":1.0,\"i\":3,\"t\":false,\"n\":null}", "{\"r\":-0.0,\"n\":[],\"i\":\"3\"}", "{\"t\":1,\"r\":1e2,\"i\":0}", "{\"\":\"empty-name\",\"a\":{\"\":[]}}",
-		"[\"x\"]", "[\"x\",\"y\"]", "[7]", "[true]", "{\"aud\":[\"x\"],\"iss\":[\"me\"],\"kid\":[\"k\"],\"exp\":[1],\"typ\":[\"JWT\"]}", "{\"aud\":\"x\",\"sub\":7,\"jti\":true,\"iat\":\"1\"}" };
-#define NJS 28
+		"[\"x\"]", "[\"x\",\"y\"]", "[7]", "[true]", "{\"aud\":[\"x\"],\"iss\":[\"me\"],\"kid\":[\"k\"],\"exp\":[1],\"typ\":[\"JWT\"]}", "{\"aud\":\"x\",\"sub\":7,\"jti\":true,\"iat\":\"1\"}",
+		/* reals that need 16-17 significant digits, beyond-2^53 integers, exponents: every read (compact and pretty) gives the stored number back */
+		"{\"r\":0.30000000000000004,\"pi\":3.141592653589793,\"e\":1.0000000000000002}", "[0.1,1e300,5e-324,9007199254740993,1.7976931348623157e308]", "{\"a\":{\"third\":0.3333333333333333,\"neg\":-2.2250738585072014e-308}}" };
+#define NJS 31
 	static const long INTS[] = { 0, 1, -1, INT64_MAX, INT64_MIN, 2147483648L, 1700000000L };
 	static const char *STRS[] = { "", "x", "a longer string value", "\xc3\xa9\xf0\x9f\x98\x80", "with \"quotes\" and \\ backslash", "line\nbreak\ttab", NULL, bigstr };
 	unsigned k = (unsigned)vh_below(&rng, 10);
